@@ -174,10 +174,31 @@ func buildDist(n *docNode) (distObj, error) {
 	if len(kids) == 0 {
 		return leafDist(name)
 	}
+	// HMM variants: identical emission distributions would make the likelihood
+	// blind to start/final restrictions - shift the location of component k by k/2
+	if p := n.F["Parameters"]; p != nil && p.Hv != "" {
+		for k := 1; k < len(kids); k++ {
+			b := kids[k].basic()
+			ps := b.GetParameters().CloneVector()
+			ps.At(0).SetFloat64(ps.At(0).GetFloat64() + 0.5*float64(k))
+			if err := b.SetParameters(ps); err != nil {
+				return distObj{}, fmt.Errorf("SetParameters of component %d: %v", k, err)
+			}
+		}
+	}
 	var s ScalarPdf
 	var v VectorPdf
 	var m MatrixPdf
 	var err error
+	hv := ""
+	if p := n.F["Parameters"]; p != nil {
+		hv = p.Hv
+	}
+	// state map of the HMM variants: a permutation, so the number of emission distributions is unchanged
+	sm2, sm4 := []int(nil), []int(nil)
+	if hv == "statemap" {
+		sm2, sm4 = []int{1, 0}, []int{1, 0, 3, 2}
+	}
 	switch name {
 	case "scalar:mixture distribution":
 		var e []ScalarPdf
@@ -207,18 +228,18 @@ func buildDist(n *docNode) (distObj, error) {
 	case "vector:hmm distribution":
 		var e []ScalarPdf
 		if e, err = scalars(kids); err == nil {
-			v, err = vd.NewHmm(vec(pi2...), mat(2, 2, tr2...), nil, e)
+			v, err = vd.NewHmm(vec(pi2...), mat(2, 2, tr2...), sm2, e)
 		}
 	case "vector:constrained hmm distribution":
 		var e []ScalarPdf
 		if e, err = scalars(kids); err == nil {
-			v, err = vd.NewConstrainedHmm(vec(1, 1, 1, 1), mat(4, 4, tr4...), nil, e, chmmConstraints())
+			v, err = vd.NewConstrainedHmm(vec(1, 1, 1, 1), mat(4, 4, tr4...), sm4, e, chmmConstraints())
 		}
 	case "vector:hierarchical hmm distribution":
 		var e []ScalarPdf
 		if e, err = scalars(kids); err == nil {
 			tree := generic.NewHmmNode(generic.NewHmmLeaf(0, 2), generic.NewHmmLeaf(2, 4))
-			v, err = vd.NewHierarchicalHmm(vec(1, 1, 1, 1), mat(4, 4, tr4h...), nil, e, tree)
+			v, err = vd.NewHierarchicalHmm(vec(1, 1, 1, 1), mat(4, 4, tr4h...), sm4, e, tree)
 		}
 	case "vector:mixture distribution":
 		var e []VectorPdf
@@ -248,18 +269,18 @@ func buildDist(n *docNode) (distObj, error) {
 	case "matrix:hmm distribution":
 		var e []VectorPdf
 		if e, err = vectors(kids); err == nil {
-			m, err = md.NewHmm(vec(pi2...), mat(2, 2, tr2...), nil, e)
+			m, err = md.NewHmm(vec(pi2...), mat(2, 2, tr2...), sm2, e)
 		}
 	case "matrix:constrained hmm distribution":
 		var e []VectorPdf
 		if e, err = vectors(kids); err == nil {
-			m, err = md.NewConstrainedHmm(vec(1, 1, 1, 1), mat(4, 4, tr4...), nil, e, chmmConstraints())
+			m, err = md.NewConstrainedHmm(vec(1, 1, 1, 1), mat(4, 4, tr4...), sm4, e, chmmConstraints())
 		}
 	case "matrix:hierarchical hmm distribution":
 		var e []VectorPdf
 		if e, err = vectors(kids); err == nil {
 			tree := generic.NewHmmNode(generic.NewHmmLeaf(0, 2), generic.NewHmmLeaf(2, 4))
-			m, err = md.NewHierarchicalHmm(vec(1, 1, 1, 1), mat(4, 4, tr4h...), nil, e, tree)
+			m, err = md.NewHierarchicalHmm(vec(1, 1, 1, 1), mat(4, 4, tr4h...), sm4, e, tree)
 		}
 	case "matrix:mixture distribution":
 		var e []MatrixPdf
@@ -269,13 +290,49 @@ func buildDist(n *docNode) (distObj, error) {
 	case "matrix:shape hmm distribution":
 		var e []MatrixPdf
 		if e, err = matrices(kids); err == nil {
-			m, err = md.NewShapeHmm(vec(pi2...), mat(2, 2, tr2...), nil, e)
+			m, err = md.NewShapeHmm(vec(pi2...), mat(2, 2, tr2...), sm2, e)
 		}
 	default:
 		return distObj{}, fmt.Errorf("driver has no builder for wrapper %q", name)
 	}
 	if err != nil {
 		return distObj{}, fmt.Errorf("constructor of %q: %v", name, err)
+	}
+	if hv == "start" || hv == "final" || hv == "startfinal" {
+		// restrict the start states to {first state}, the final states to {last state}
+		var h interface {
+			SetStartStates([]int) error
+			SetFinalStates([]int) error
+		}
+		var ok bool
+		if v != nil {
+			h, ok = v.(interface {
+				SetStartStates([]int) error
+				SetFinalStates([]int) error
+			})
+		} else if m != nil {
+			h, ok = m.(interface {
+				SetStartStates([]int) error
+				SetFinalStates([]int) error
+			})
+		}
+		if !ok {
+			return distObj{}, fmt.Errorf("%q has no start/final states", name)
+		}
+		last := 1
+		if strings.Contains(name, "constrained") || strings.Contains(name, "hierarchical") {
+			last = 3
+		}
+		if hv != "final" {
+			if e := h.SetStartStates([]int{0}); e != nil {
+				return distObj{}, fmt.Errorf("SetStartStates: %v", e)
+			}
+		}
+		if hv != "start" {
+			if e := h.SetFinalStates([]int{last}); e != nil {
+				return distObj{}, fmt.Errorf("SetFinalStates: %v", e)
+			}
+		}
 	}
 	return distObj{s: s, v: v, m: m}, nil
 }
@@ -561,6 +618,9 @@ func cfgName(n *docNode) string {
 		return "?"
 	}
 	s := n.F["Name"].S
+	if p := n.F["Parameters"]; p != nil && p.Hv != "" {
+		s += "[" + p.Hv + "]"
+	}
 	if d := n.F["Distributions"]; d != nil && len(d.V) > 0 {
 		s += "(" + cfgName(d.V[0]) + ")"
 	}
